@@ -1,6 +1,6 @@
 #!/bin/bash
 # tools/kill_matrix.sh [seeded dirs...] — every seeded change against every check (quick tier); writes work/matrix.tsv
-cd /verif
+cd "${NLV_VERIF:-/verif}"
 OUT=${MATRIX_OUT:-work/matrix.tsv}; touch $OUT
 DIRS="${*:-$(ls -d seeded/C*-* | sort)}"
 for d in $DIRS; do
